@@ -17,6 +17,8 @@ func init() {
 		replaceDirs: map[string]string{"llama": "harness/llamafake"},
 		files: map[string]string{
 			"harness/llamarunner/zz_verif_runner_test.go": "runner/llamarunner/zz_verif_runner_test.go",
+			"harness/llamarunner/zz_verif_model_test.go":  "runner/llamarunner/zz_verif_model_test.go",
+			"harness/llamarunner/zz_verif_oracle_test.go": "runner/llamarunner/zz_verif_oracle_test.go",
 		},
 	}, map[string]propSpec{})
 }
